@@ -114,6 +114,7 @@ func init() {
 					// sample points: the middle of every slit is outside everything, the middle of every tooth in exactly one polygon
 					step := 1 + T/200 // (every sample scans the rings: a couple of hundred of them, spread over the comb)
 					for j := 1; j <= T; j += step {
+						progress() // (the harness's own work)
 						cover := func(p orb.Point) int {
 							n := 0
 							for _, poly := range mp {
